@@ -159,8 +159,11 @@ class Adapter:
         maw = aw + lg(g)
         subs, pre, rejected = [], [], []
         many = aw >= 6 and r.random() < 0.3              # scale: 6-16 subordinates on one decoder
-        for k in range(r.randint(6, 16) if many else r.randint(0, 5)):
+        share = g >= 4 and r.random() < 0.4             # two or three sparse windows inside ONE decoder word
+        for k in range(r.randint(6, 16) if many else r.randint(2 if share else 0, 5)):
             dense = r.random() < 0.65
+            if share and k < (3 if g >= 8 else 2):
+                dense = False
             sf = {f: r.randint(0, 1) for f in FEATS}
             for f in ("err", "rty", "stall"):
                 sf[f] &= feat[f]
@@ -173,13 +176,16 @@ class Adapter:
                 saw = r.randint(max(1, lg(g)), max(1, lg(g), maw - 1))
                 if g > 1 and r.random() < 0.3:
                     saw = r.randint(1, max(1, lg(g) - 1)) if lg(g) > 1 else 1     # narrower than one decoder word
+                if share and k < (3 if g >= 8 else 2):
+                    saw = 1
             sb = wishbone.Interface(addr_width=saw, data_width=sdw, granularity=sgran, features=featset(sf))
             sb.memory_map = MemoryMap(addr_width=max(1, saw + lg(sdw // sgran)), data_width=sgran)
-            if r.random() < 0.2:
+            in_word = share and k < (3 if g >= 8 else 2)
+            if r.random() < 0.2 and not in_word:
                 pre.append(r.randint(0, maw - 1))
                 dec.align_to(pre[-1])
             addr, explicit = None, False
-            if r.random() < 0.4:
+            if r.random() < 0.4 and not in_word:
                 step = 1 << max(sb.memory_map.addr_width, al)
                 addr = r.randrange(0, 1 << maw, step)
                 explicit = True
